@@ -1,0 +1,6 @@
+//go:build verif
+
+package zygo
+
+// VerifC18FuncName returns the name a function value was defined under (read-only; C18 harness).
+func (sf *SexpFunction) VerifC18FuncName() string { return sf.name }
